@@ -48,7 +48,8 @@ fn main() {
             let _ = OUT_PATH.set(out.clone());
             // properties whose deepest bounds cost only seconds are always run at those bounds
             const ALWAYS_DEEP: [&str; 12] = ["C02", "C03", "C04", "C05", "C06", "C07", "C08", "C09", "C13", "C16", "C17", "C19"];
-            let thorough = tier == "thorough" || ALWAYS_DEEP.contains(&id);
+            // HV_SHALLOW=1 (coverage measurement runs only) keeps the shallow bounds
+            let thorough = tier == "thorough" || (ALWAYS_DEEP.contains(&id) && std::env::var("HV_SHALLOW").is_err());
             let t0 = std::time::Instant::now();
             let o = match std::panic::catch_unwind(|| props::run(id, thorough)) {
                 Ok(Some(o)) => o,
